@@ -19,7 +19,7 @@ import (
 )
 
 // nodeKinds of the C03 layout generator (the assignment the property quantifies over).
-var c03Kinds = []string{"none", "new-available", "new-unavailable", "old-available", "old-available", "old-unavailable", "old-unavailable", "old-terminating", "old-terminating-unready", "new-terminating-unready", "old-stuck-unscheduled", "old-terminating-past-grace", "adopted-available", "adopted-unavailable", "old-failed", "old-failed-x2", "new-failed-x2", "old-available-skewed", "tainted-node", "tainted-node"}
+var c03Kinds = []string{"none", "new-available", "new-unavailable", "old-available", "old-available", "old-unavailable", "old-unavailable", "old-terminating", "old-terminating-unready", "new-terminating-unready", "old-stuck-unscheduled", "old-terminating-past-grace", "adopted-available", "adopted-unavailable", "old-failed", "old-failed-x2", "new-failed-x2", "old-available-skewed", "tainted-node", "tainted-node", "old-available-cordoned"}
 
 func forksN() int {
 	if thorough() {
@@ -51,6 +51,10 @@ func TestC03Budget(t *testing.T) {
 				migration = true
 			}
 			var taints []corev1.Taint
+			if kinds[i] == "old-available-cordoned" {
+				// a cordoned / not-ready node carries taints every daemon pod tolerates by default: still targeted
+				taints = []corev1.Taint{{Key: "node.kubernetes.io/unschedulable", Effect: corev1.TaintEffectNoSchedule}, {Key: "node.kubernetes.io/not-ready", Effect: corev1.TaintEffectNoExecute}}
+			}
 			if kinds[i] == "tainted-node" {
 				// listed for the replica set but not targeted (untolerated taint, no pod): must not count in the percentage base
 				taints = []corev1.Taint{{Key: "dedicated", Value: "gpu", Effect: corev1.TaintEffectNoSchedule}}
@@ -78,6 +82,9 @@ func TestC03Budget(t *testing.T) {
 			case "new-unavailable":
 				p.addPod(node, 'B', PSUnavailable, time.Minute)
 			case "old-available":
+				p.addPod(node, old, PSAvailable, 15*time.Minute)
+				oldAvail++
+			case "old-available-cordoned":
 				p.addPod(node, old, PSAvailable, 15*time.Minute)
 				oldAvail++
 			case "old-available-skewed":
